@@ -152,6 +152,26 @@ theorem bondContainer_clear_clean (b : BC) (h : b.Covered) :
 theorem bondContainer_covered_init : BC.new.Covered ∧ ∀ b : BC, b.clean = true → b.Covered :=
   ⟨BC.covered_new, fun _ h => BC.covered_of_clean h⟩
 
+/-- Every mutating operation keeps the hypothesis. -/
+theorem bondContainer_covered_preserved (b : BC) (h : b.Covered) (op : BC.Op) :
+    (b.step op).Covered := by
+  cases op with
+  | insert k w => exact BC.covered_insert b k w h
+  | remove k => exact BC.covered_remove b k h
+  | clear => exact BC.covered_clear b h
+
+/-- Hence: a container taken clean from the pool, used in any way through its public mutating
+interface, and handed back, is observably empty after the `reset` of `return_instance`. -/
+theorem bondContainer_any_use_then_reset_clean (b : BC) (hb : b.clean = true) (ops : List BC.Op) :
+    ((ops.foldl BC.step b).clear).clean = true := by
+  apply BC.clear_clean
+  have : ∀ (ops : List BC.Op) (b : BC), b.Covered → (ops.foldl BC.step b).Covered := by
+    intro ops
+    induction ops with
+    | nil => intro b h; exact h
+    | cons o os ih => intro b h; exact ih _ (bondContainer_covered_preserved b h o)
+  exact this ops b (BC.covered_of_clean hb)
+
 /-- `Reset::reset` makes every buffer a borrower may hand back clean. -/
 theorem reset_clean (b : Buf) (h : b.Ok) : b.reset.clean = true := by
   cases b with
